@@ -88,7 +88,8 @@ PROPS = {
                  "of an open transaction, MaxSyncWALBytes of 1 or 3 frames; at 3 points of each history every TXID present at any "
                  "level of the replica is restored and compared with the ledger of committed states (version stamp -> digest). "
                  "Non-trivial = a litestream sync/checkpoint/snapshot ran while uncommitted frames were physically in the WAL, or a "
-                 "rollback happened after frames had spilled; distinct = hash of (config, abstracted op sequence)."),
+                 "rollback happened after frames had spilled; distinct = hash of (config, abstracted op sequence)."
+                 " Half of the histories begin with a generated cold start (base content checkpointed, in-place updates, a long reader, a partial PASSIVE backfill) before litestream's first sync; a quarter of the litestream ops carry application ops (and, between a snapshot's position and its reader, synchronous litestream sync/checkpoint calls) executed inside litestream's pipeline through the verif phase hook."),
         "assumptions": ["schedules are enumerated at statement granularity (the granularity at which SQLite makes frames visible); preemptive concurrency is C12's",
                         "file replica client only"],
         "runs": [
@@ -163,7 +164,8 @@ PROPS = {
         "rule": ("paired histories of 8-36 steps (same generator as C01 plus re-attach) executed on database A (litestream attached) and control B; "
                  "comparison after every application statement (outcome class) and at 4 points (digest of all user rows and schema, sqlite_master "
                  "delta = exactly the two bookkeeping tables, _litestream_lock empty, integrity_check, journal_mode). Non-trivial = at least one "
-                 "litestream checkpoint ran including a PASSIVE one (barrier transaction rolled back); distinct = hash of (config, abstracted ops)."),
+                 "litestream checkpoint ran including a PASSIVE one (barrier transaction rolled back); distinct = hash of (config, abstracted ops)."
+                 ' Includes cold restarts (litestream and every application connection closed - the WAL is deleted - then started again, litestream first or second) and syncs/checkpoints during which the local staging of the next LTX files fails.'),
         "assumptions": ["busy results of application RESTART/TRUNCATE checkpoints may differ (documented effect of litestream's read lock) and are not compared"],
         "runs": [
             {"name": "paired-histories", "test": "TestProp_C14", "kind": "rapid", "checks_quick": 400, "checks_thorough": 2500, "shards": 6},
@@ -180,7 +182,8 @@ PROPS = {
         "rule": ("histories of 10-40 steps (70 thorough) over {application ops incl. shrink/VACUUM and application checkpoints, SyncAndWait, "
                  "Compact(l) for every configured l, Store.CompactDB(l|snapshot), Snapshot, litestream checkpoints} x level layouts of 1..8 "
                  "levels. Non-trivial = a compaction whose input range contains a shrink, an in-chain full snapshot, or >=2 files at a level >=2; "
-                 "distinct = hash of (config, abstracted ops)."),
+                 "distinct = hash of (config, abstracted ops)."
+                 ' A third of the histories continue with a compaction ladder (rounds of 1-3 level-1 compactions followed by the higher levels in order).'),
         "assumptions": ["file replica client only"],
         "runs": [
             {"name": "histories", "test": "TestProp_C06", "kind": "rapid", "checks_quick": 400, "checks_thorough": 3000, "shards": 6},
@@ -214,7 +217,8 @@ PROPS = {
         "rule": ("C06 histories with a 2ms sleep before each acknowledged sync, with/without compaction, snapshots and level-0 retention (L0Retention 1ns "
                  "via Compact(1)); up to 14 targets T per history drawn from {ts(n)-1ms, ts(n), ts(n)+1ms, midpoints, before first, after last}. "
                  "Non-trivial = T falls strictly inside the TXID range of a compacted file that is present, or equals some ts(n) exactly; "
-                 "distinct = hash of (config, abstracted ops, target picks)."),
+                 "distinct = hash of (config, abstracted ops, target picks)."
+                 ' A quarter of the acknowledged syncs have a Snapshot request started on its own goroutine from inside a phase hook (it queues on the executor while the sync creates the next TXID).'),
         "assumptions": ["file replica client: CreatedAt is the file mtime set from the LTX header timestamp"],
         "runs": [
             {"name": "histories", "test": "TestProp_C15", "kind": "rapid", "checks_quick": 300, "checks_thorough": 2000, "shards": 6},
@@ -230,7 +234,8 @@ PROPS = {
         "level": "exploration",
         "rule": ("C01 histories with 1-2 (thorough: up to 4) disturbance episodes; each episode = {restart, reopen, reset-runtime} x a down-time sub-history of 1-6 ops over "
                  "{application writes incl. in-place updates, walrestart(mode, relation to old cursor, in-place or insert), closeall, replace-old, replace-restore, "
-                 "rm-meta, reset-offline}. Non-trivial = an episode missed at least one commit that modified an existing page; distinct = hash of (config, abstracted ops)."),
+                 "rm-meta, reset-offline}. Non-trivial = an episode missed at least one commit that modified an existing page; distinct = hash of (config, abstracted ops)."
+                 " A fifth of the disturbances are multi-restart sequences (2-3 checkpoint+write rounds, short generations rewriting different rows); after a restart the storage may fail litestream's first 1-3 client calls; after the last disturbance a bounded recovery check requires an acknowledged sync within three attempts on a quiet database."),
         "assumptions": ["file replica client only", "litestream never runs concurrently with the down-time sub-history (that is what 'down' means)"],
         "runs": [
             {"name": "histories", "test": "TestProp_C04", "kind": "rapid", "checks_quick": 500, "checks_thorough": 3000, "shards": 6},
@@ -246,7 +251,8 @@ PROPS = {
         "level": "exploration",
         "rule": ("C07 histories x a fault plan of 8-40 entries (cycled over the ReplicaClient calls, fault density 5-40%) followed by a fault-free suffix of 3 "
                  "write+SyncAndWait rounds. Non-trivial = an upload failed after taking effect or was only partially consumed, and a later round was "
-                 "acknowledged; distinct = hash of (config, abstracted ops, plan)."),
+                 "acknowledged; distinct = hash of (config, abstracted ops, plan)."
+                 ' A third of the cases end with a compaction ladder (several level-1 files, then levels 2/3 read back from the replica) with the fault plan restricted to one kind of client call.'),
         "assumptions": ["file replica client underneath the injector", "monitors off: the retry loops exercised are SyncAndWait's caller-driven retries and Close's shutdown retry"],
         "runs": [
             {"name": "histories", "test": "TestProp_C05", "kind": "rapid", "checks_quick": 400, "checks_thorough": 2500, "shards": 6},
@@ -264,7 +270,8 @@ PROPS = {
                  "offset, flip bit at offset, delete file} on plan / non-plan files, {read error, premature EOF, open failure} x 1-2 or 5 faults per restore, "
                  "{output exists, output.tmp exists}, {integrity None/Quick/Full x scribbled source}. Thorough: fixed replicas x every plan file x every byte "
                  "offset x {truncate, flip}. Non-trivial = the damage hits a file of the restore plan, a read fault forces a resume, or an output-path/"
-                 "integrity scenario; distinct = hash of (history, damages)."),
+                 "integrity scenario; distinct = hash of (history, damages)."
+                 " Damage kind image: an intact replica encoding a database image with junk in the file header, the schema page or another page, restored with an integrity mode; the expected outcome is computed with the harness's own SQLite."),
         "assumptions": ["file replica client", "single corruptions (one damage per restore)"],
         "runs": [
             {"name": "damages", "test": "TestProp_C10", "kind": "rapid", "checks_quick": 240, "checks_thorough": 3000, "shards": 6},
@@ -283,7 +290,8 @@ PROPS = {
         "level": "exploration",
         "rule": ("scenarios of 4-10 litestream commands with 1-2 application writes between them (commands: sync, syncwait, rsync, checkpoint x4 modes, compact, "
                  "snapshot, retention x3, restore), optionally followed by a restart with the meta directory removed; every rename to a final name and every "
-                 "unlink of an LTX file in the trace is one evaluation. Non-trivial = the trace contains a checked rename and reached a success ACK; distinct = hash of the scenario."),
+                 "unlink of an LTX file in the trace is one evaluation. Non-trivial = the trace contains a checked rename and reached a success ACK; distinct = hash of the scenario."
+                 ' 40% of the cases add a traced follow-mode restore (initial restore, then 1-3 more replicated transactions applied with the TXID sidecar republished).'),
         "assumptions": ["x86_64 Linux ptrace", "lsdriver executes one command at a time on one goroutine"],
         "runs": [
             {"name": "scenarios", "test": "TestProp_C11", "kind": "rapid", "checks_quick": 150, "checks_thorough": 1000, "shards": 8},
@@ -299,7 +307,8 @@ PROPS = {
         "level": "fault_enumeration",
         "rule": ("generated: scenarios of 4-10 commands {sync, syncwait, rsync, checkpoint x4, compact, snapshot, retention x3, restore} with 1-2 application writes between them, a "
                  "dry run under the tracer to learn the number N of mutating calls, kill index k = 3%..100% of N, optional second kill after the restart. Enumeration: 6 "
-                 "fixed scenarios x every k in 1..N (thorough) or every 9th k (quick). Non-trivial = the kill landed inside a command after 'open'; distinct = hash of (scenario, k)."),
+                 "fixed scenarios x every k in 1..N (thorough) or every 9th k (quick). Non-trivial = the kill landed inside a command after 'open'; distinct = hash of (scenario, k)."
+                 ' Cases may carry generated application activity (writes, checkpoints of all modes) executed between the kill and the restart.'),
         "assumptions": ["x86_64 Linux ptrace", "lsdriver executes one command at a time on one goroutine, so its syscall sequence is deterministic up to Go runtime noise"],
         "runs": [
             {"name": "generated", "test": "TestProp_C03", "kind": "rapid", "checks_quick": 48, "checks_thorough": 600, "shards": 8},
@@ -317,7 +326,8 @@ PROPS = {
         "level": "fault_enumeration",
         "rule": ("2-4 rounds; each round = a primary slice of 3-10 ops run while the follower is down (creates level-0 gaps to bridge), optionally a second slice run while the follower is live, "
                  "then a follower session that is killed before mutating call k (k sampled) and restarted, or stopped cleanly. Non-trivial = a resume had to bridge a missing level-0 TXID "
-                 "from a higher level, or a kill landed inside applyLTXFile (before a pwrite/fsync/ftruncate on the follower database); distinct = hash of the case."),
+                 "from a higher level, or a kill landed inside applyLTXFile (before a pwrite/fsync/ftruncate on the follower database); distinct = hash of the case."
+                 ' Levels 1-3; prune ops (TXID retention of a level up to what the next level holds) and ladder slices leave the follower several levels behind with lower levels partly deleted.'),
         "assumptions": ["x86_64 Linux ptrace", "file replica client", "convergence wait bounded by 4000 polls of 2 ms with a static replica"],
         "runs": [
             {"name": "schedules", "test": "TestProp_C16", "kind": "rapid", "checks_quick": 64, "checks_thorough": 800, "shards": 8},
@@ -333,7 +343,8 @@ PROPS = {
         "level": "exploration",
         "rule": ("layouts from histories of insert/update/delete/DDL/incremental-vacuum transactions (20% 'uniform' histories whose WALs have equal lengths, to provoke offset "
                  "coincidences) x remove in {none, any one segment} x T in {none, each file time -1s/0/+1s} x current-format replica in {absent, older, newer}. "
-                 "Non-trivial = >=2 indices after the snapshot with a WAL split into >=2 segments, or a segment removed, or both formats present; distinct = hash of the case."),
+                 "Non-trivial = >=2 indices after the snapshot with a WAL split into >=2 segments, or a segment removed, or both formats present; distinct = hash of the case."
+                 ' Generation IDs may sort in reverse age order; the current-format files may lie between the newest legacy snapshot and the legacy WAL segments after it.'),
         "assumptions": ["file replica client (CreatedAt = file mtime)", "segments end at commit boundaries, as 0.3.x produced them"],
         "runs": [
             {"name": "layouts", "test": "TestProp_C19", "kind": "rapid", "checks_quick": 2400, "checks_thorough": 15000, "shards": 8},
@@ -349,7 +360,8 @@ PROPS = {
         "level": "exploration",
         "rule": ("histories of 8-30 steps over {application ops incl. delete+incremental_vacuum, SyncAndWait, Compact(l), Snapshot, vfs-open, vfs-poll, vfs-time(T), vfs-reset}; "
                  "page sizes 512..8192, auto_vacuum none/full/incremental, L0Retention 0 or 1ns. Non-trivial = a poll or plan consumed a file whose commit is smaller than the "
-                 "previous commit, or a poll ran after the level-0 files it would have read were compacted away; distinct = hash of the case."),
+                 "previous commit, or a poll ran after the level-0 files it would have read were compacted away; distinct = hash of the case."
+                 ' Also: several replicated transactions of different kinds picked up by one poll; a reader holding the SHARED lock while the poller runs (compared after unlock); polls while a time-travel view is installed (the view must not move).'),
         "assumptions": ["file replica client", "build tags verif,vfs with cgo"],
         "runs": [
             {"name": "histories", "test": "TestProp_C18", "kind": "rapid", "checks_quick": 400, "checks_thorough": 4000, "shards": 6},
@@ -365,7 +377,8 @@ PROPS = {
         "level": "exploration",
         "rule": ("grid = page size in {4096,8192,16384,65536} (thorough: all 8 sizes) x committed size before attaching in {lock-40, lock-3, lock-1, lock+1, lock+2, lock+30} x growth in one "
                  "transaction of {0,3,50} pages; each case runs first sync, growth sync, both-ends update sync, Snapshot, Compact(1), then checks every replica file's page index and a full "
-                 "restore. Every case is non-trivial (the lock page is at, next to, or inside the committed range); distinct = grid point."),
+                 "restore. Every case is non-trivial (the lock page is at, next to, or inside the committed range); distinct = grid point."
+                 ' Quick always includes one database that is already beyond the lock page when litestream first sees it; every case checkpoints before its snapshot and compares a restore through level 0 and one through the snapshot.'),
         "assumptions": ["/dev/shm tmpfs with ~3 GiB free per running case"],
         "runs": [
             {"name": "grid", "test": "TestGrid_C17", "kind": "plain", "shards_quick": 6, "shards_thorough": 6, "env": {"VERIF_ENUM": "1"}, "timeout_quick": 1500, "timeout_thorough": 14400},
@@ -381,7 +394,8 @@ PROPS = {
         "binary": "propsrace",
         "level": "exploration",
         "rule": ("per case: page size, MinCheckpointPageN, 3-6 goroutines x 8-30 ops, 1-2 writers x 10-40 transactions, GOMAXPROCS. Non-trivial = at least two different operation kinds "
-                 "overlapped in time (measured from start/end of operations, used for classification only); distinct = hash of the case."),
+                 "overlapped in time (measured from start/end of operations, used for classification only); distinct = hash of the case."
+                 ' Operations include Close with an expiring (3 ms) or already cancelled context behind a harness gate that keeps other lifecycle requests out (the instance must be closed when the call returns); an operation that uses up its whole 20 s budget waiting is a violation.'),
         "assumptions": ["the OS/Go scheduler chooses the interleavings", "watchdog bounds (45 s per operation, 90 s for Close) exceed observed maxima by two orders of magnitude"],
         "runs": [
             {"name": "stress", "test": "TestProp_C12", "kind": "rapid", "checks_quick": 96, "checks_thorough": 1200, "shards": 8, "confirm": False, "shrinktime": "0s",
